@@ -300,12 +300,14 @@ def kissHeader (req : Req) (refid : Bytes) (poll : Nat) (authnak : Bool) : Heade
     refTime := if req.version = 5 then [] else u64Bytes 0, origin := req.xmit, recv := 0, xmit := 0,
     synchronized := false, authnak := authnak }
 
-def timeHeader (info : Info) (env : Env) (req : Req) (disp : Int) : Header :=
+/-- `plain`: built by `timestamp_response` (the upgrade marker is answered there only; `nts_timestamp_response`
+    never returns it) -/
+def timeHeader (info : Info) (env : Env) (req : Req) (disp : Int) (plain : Bool := true) : Header :=
   { version := req.version, mode := 4, leap := leapBits info.leap, stratum := info.stratum,
     poll := req.poll, precision := durLog2 info.precision, rootDelay := info.rootDelay, rootDisp := disp,
     refid := if req.version = 5 then [] else info.refid,
     refTime := if req.version = 5 then [] else
-      if req.version = 4 ∧ req.reft = upgradeMarker then upgradeMarker else u64Bytes (truncRef env.recv),
+      if req.version = 4 ∧ plain = true ∧ req.reft = upgradeMarker then upgradeMarker else u64Bytes (truncRef env.recv),
     origin := req.xmit, recv := env.recv, xmit := env.now,
     synchronized := decide (info.stratum < 16), authnak := false }
 
@@ -355,7 +357,7 @@ def ntsTimestampResponse (info : Info) (env : Env) (req : Req) (alg : Nat) : Bui
     -- `encode_cookie` indexes `keys[primary]` for the first cookie / placeholder it meets
     if !info.keysOk && (req.auth ++ req.enc).any isCookieLike then .panic
     else
-    .ok { hdr := timeHeader info env req disp,
+    .ok { hdr := timeHeader info env req disp false,
           untrusted := [],
           auth := if req.version = 5 then req.auth.filterMap (echoV5 info.bloom) ++ [.draft]
                   else req.auth.filterMap uidOf,
